@@ -209,6 +209,35 @@ def traceStep (cc : CaseCfg) (reqs : Array Req) (tr : Trace) (a : HAct) (before 
           let c := after.getD t '-'
           if c == 'H' || c == 'D' then hitIfMissing tr t else tr
 
+/-- distribution tags: where, relative to the abstract windows, the implementation's hits and
+take-backs fell (window edges, idle gaps, weighted previous window, take-back of an old hit) -/
+def edgeTags (cfg : Cfg) (reqs : Nat → Req) : List Spec.Ev → Spec.State → List String → List String
+  | [], _, acc => acc
+  | .hit t ts :: evs, s, acc =>
+    let r := reqs t
+    let w' := Spec.hit cfg (s r.key) ts t
+    let E := cfg.expiration
+    let tg : List String := match s r.key with
+      | none => []
+      | some w =>
+        (if ts + 1 == w.wend then ["hit-last-second"] else []) ++
+        (if ts == w.wend then ["hit-at-end"] else []) ++
+        (if cfg.sliding && ts + 1 == w.wend + E then ["hit-prev-last-second"] else []) ++
+        (if cfg.sliding && ts == w.wend + E then ["hit-gap-exact"] else []) ++
+        (if ts > w.wend + E then ["hit-gap-long"] else []) ++
+        (if cfg.sliding && w.wend ≤ ts && ts < w.wend + E && !w.cur.isEmpty then ["weighted"] else [])
+    let lim := if Spec.admits cfg w' ts r.max then
+        (if Spec.load cfg w' ts == r.max then ["pass-at-limit"] else [])
+      else (if Spec.load cfg w' ts == r.max + 1 then ["reject-just-over"] else [])
+    edgeTags cfg reqs evs (s.set r.key w') (acc ++ tg ++ lim)
+  | .unhit t :: evs, s, acc =>
+    let r := reqs t
+    match s r.key with
+    | some w =>
+      let tg := if w.cur.contains t then "unhit-cur" else if w.prev.contains t then "unhit-prev" else "unhit-late"
+      edgeTags cfg reqs evs (s.set r.key (Spec.unhit w t)) (acc ++ [tg])
+    | none => edgeTags cfg reqs evs s (acc ++ ["unhit-late"])
+
 def handleCase (f : List String) : Except String Verdict := do
   match f with
   | [id, cfgS, thrS, actS, impl] =>
@@ -253,9 +282,15 @@ def handleCase (f : List String) : Except String Verdict := do
     let rej := ires.any (·.startsWith "429:")
     let unh := evs.any fun e => match e with | .unhit _ => true | _ => false
     let conc := iposs.any (·.contains 'B')
+    let keysUsed := ((reqs.toList.filter (fun r => !bypassed r)).map (·.key)).eraseDups
+    let limitsUsed := ((reqs.toList.filter (fun r => !bypassed r)).map (·.max)).eraseDups
     let tags := [(if cc.cfg.sliding then "sliding" else "fixed"), "st" ++ cc.st] ++
       (if rej then ["rejects"] else []) ++ (if unh then ["unhit"] else []) ++
-      (if conc then ["contended"] else []) ++ (if rej || unh then ["nt"] else [])
+      (if conc then ["contended"] else []) ++
+      (if keysUsed.length > 1 then ["multi-key"] else []) ++
+      (if limitsUsed.length > 1 then ["dyn-limit"] else []) ++
+      (edgeTags cc.cfg reqF evs (fun _ => none) []).eraseDups ++
+      (if rej || unh then ["nt"] else [])
     pure { id := id, modelObs := modelObs, implObs := impl, spec := spec, tags := tags }
   | _ => throw s!"outside-domain: expected 5 fields, got {f.length}"
 
